@@ -113,7 +113,9 @@ class IndxIO(object):
             offset=offset,
         )
         ptr = 0
-        for length, coords in zip(lengths, all_coords):
+        # Use Python ints: a running offset kept in the rowid dtype wraps around
+        # as soon as the rowids total more than that word size can count.
+        for length, coords in zip(lengths.tolist(), all_coords):
             rowids = rowid_lists[ptr : ptr + length]
             ptr += length
             # For now, force uint32 everywhere.
